@@ -117,7 +117,9 @@ claim('C17',
       'model; ill-posed inputs must give False, non-zero exit code, and TDS / EIG must return False without raising. '
       'Time domain: 9 dynamic faults on kundur_full (violated limiter at initialisation, 1.5 s fault, machine trip, all '
       'lines tripped, inconsistent ratings, forced rejection with fixed step and shrinkt = 0) and one NaN answer of the '
-      'linear solver injected at each of the first 10 solves for two integration methods. Files: every token-boundary '
+      'linear solver injected at each of the first 10 solves for two integration methods. Loss of synchronism: two '
+      'classical machines that keep converging while slipping (light machine x fault bus x 5 durations x add order x '
+      'method): the stability criterion recomputed from the stored angles must stop the run. Files: every token-boundary '
       'prefix of a json case, 8 truncations of an xlsx case, empty, wrong extension, missing - through andes.load and '
       'the CLI entry point.',
       'Rejecting bad data while loading (exception or None) counts as reported failure; a routine run() that raises '
